@@ -20,6 +20,8 @@ FAULT_CLASSES = {
     "InjectedFault": InjectedFault,
     "TypeError": TypeError,
     "RuntimeError": RuntimeError,
+    "AttributeError": AttributeError,
+    "OSError": OSError,
 }
 
 
